@@ -1052,6 +1052,83 @@ def nsec_max_cases(rng, tier):
     return res
 
 
+def deep_legal_packet(hops, label=b"a", tail=(b"z",), per_node=1, refs=((12, None, ()),), question=False):
+    """A **strict-accepted** message with a deep *backward* pointer chain (second review, finding 2).  A TXT record is the
+    container: node 0 = the labels `tail` + root byte; node i = `per_node` labels `label`, then a pointer to node i-1.  Each of
+    `refs` = (record type, node index or None = the last node, literal labels in front) is a PTR/CNAME/SRV/NSEC record owned by
+    `a.` whose rdata name is those labels + a pointer to the node: following it takes (node index + 1) hops and yields
+    per_node * index + len(tail) labels.  The strict parser allows 128 hops and 253 characters; with `question` the records
+    are read lazily by answers().  -> datagram"""
+    pre = b"\x01a\x00" + struct.pack(">HHIH", 16, 1, 120, 0)
+    head = struct.pack(">HH", 12, 1) if question else b""
+    qname = b"\x01q\x00" if question else b""
+    at = 12 + len(qname) + len(head) + len(pre)
+    region, offs = bytearray(), []
+    offs.append(at)
+    region += b"".join(bytes([len(l)]) + l for l in tail) + b"\x00"
+    for _ in range(hops - 1):
+        offs.append(at + len(region))
+        for _k in range(per_node):
+            if label:
+                region += bytes([len(label)]) + label
+        region += struct.pack(">H", 0xC000 | offs[-2])
+    pre = pre[:-2] + struct.pack(">H", len(region))
+    recs = b""
+    for t, node, front in refs:
+        tgt = offs[-1] if node is None else offs[node]
+        rd = b"".join(bytes([len(l)]) + l for l in front) + struct.pack(">H", 0xC000 | tgt)
+        if t == 33:
+            rd = struct.pack(">HHH", 1, 2, 80) + rd
+        elif t == 47:
+            rd += b"\x00\x01\x40"
+        owner = b"\xc0" + bytes([12 + len(qname) + len(head)])
+        recs += owner + struct.pack(">HHIH", t, 1, 120, len(rd)) + rd
+    return struct.pack(">HHHHHH", 0, 0x8400 if not question else 0, 1 if question else 0, 1 + len(refs), 0, 0) + qname + head + pre + bytes(region) + recs
+
+
+def deep_legal_cases(rng, tier):
+    """backward chains of 21..128 hops (129/130: rejected by both parsers), names of up to 126 labels through pointers"""
+    out = []
+    kinds = [12, 5, 33, 47]
+    k = 0
+    for h in [1, 2, 20, 21, 22, 31, 32, 33, 34, 48, 63, 64, 65, 66, 96, 100, 101, 120, 125, 126, 127, 128, 129, 130]:
+        for label, tail in ((b"", (b"z",)), (b"", ()), (b"a", (b"z",)), (b"a", ())):
+            # with a one-byte label per hop the name has (h - 1) + len(tail) labels of one character: 253 characters = 126 labels
+            if label and (h - 1) + len(tail) > 127:
+                continue
+            t = kinds[k % 4]
+            k += 1
+            out.append(deep_legal_packet(h, label, tail, refs=((t, None, ()),), question=(k % 5 == 0)))
+    # the same chain referenced at several depths by several records (cache hits at every depth, both orders)
+    for h, nodes in ((128, (127, 60, 0)), (128, (0, 60, 127)), (100, (99, 99, 98)), (126, (125, 124, 64)), (70, (69, 33, 32))):
+        for label in (b"", b"a"):
+            if label and h > 126:
+                continue
+            out.append(deep_legal_packet(h, label, (b"z",), refs=tuple((kinds[i % 4], n, ()) for i, n in enumerate(nodes))))
+            out.append(deep_legal_packet(h, label, (b"z",), refs=tuple((kinds[(i + 1) % 4], n, (b"f",) if i == 1 and (not label or n < 120) else ()) for i, n in enumerate(nodes)),
+                                         question=True))
+    # many labels, fewer hops: several labels per node, a long literal tail, longer labels
+    for h, per, label, tail in ((63, 2, b"a", ()), (64, 2, b"a", ()), (32, 4, b"a", ()), (33, 3, b"b", (b"z",)), (2, 1, b"a", (b"t",) * 125), (2, 1, b"a", (b"t",) * 100),
+                                (3, 1, b"a", (b"t",) * 63), (3, 1, b"a", (b"t",) * 64), (3, 1, b"a", (b"t",) * 65), (41, 1, b"abcde", (b"local",)), (4, 1, b"x" * 63, (b"y" * 55,)),
+                                (31, 1, "é".encode() * 3, (b"z",)), (128, 1, b"", (b"x" * 63, b"y" * 63, b"z" * 63, b"w" * 59))):
+        out.append(deep_legal_packet(h, label, tail, per_node=per, refs=((kinds[k % 4], None, ()),)))
+        k += 1
+    for _ in range(8 if tier == "quick" else 300):
+        h = rng.choice([rng.randrange(21, 129), rng.randrange(100, 129), 128])
+        label = rng.choice([b"", b"a", b"a", rng.choice([b"bc", b"_t"])])
+        tail = rng.choice([(), (b"z",), (b"local",), (b"_tcp", b"local")])
+        per = 1
+        while label and (h - 1) * per * (len(label) + 1) + sum(len(t) + 1 for t in tail) > 250:
+            h -= 1
+        if h < 2:
+            continue
+        refs = tuple((rng.choice(kinds), rng.choice([None, rng.randrange(h)]), ()) for _ in range(rng.choice([1, 2, 3])))
+        out.append(deep_legal_packet(h, label, tail, per_node=per, refs=refs, question=rng.random() < 0.3))
+    res = [("deep-legal", p) for p in out]
+    res += [("deep-legal-mutated", mutate(rng, p)) for p in out[:: 4 if tier == "quick" else 1]]
+    return res
+
+
 ALPHABET = [0x00, 0x01, 0x3F, 0x40, 0xC0, 0x0C, 0xFF, 0x61]
 HEADERS = [struct.pack(">HHHHHH", 0, 0, 1, 0, 0, 0), struct.pack(">HHHHHH", 0, 0x8400, 0, 1, 0, 0)]
 
@@ -1137,7 +1214,9 @@ def check_case(res, data, stream, obs, mline, sline, bline, model_ok=True, wline
                                 % (obj["valid"] if obj else None), dict(case, strict=sline[:400]))
                 else:
                     nr, nqs = len(obj["records"]), len(obj["questions"])
-                    res.nontriv(("agree", min(nqs, 64) // 8, min(nr, 64) // 8, tuple(sorted({r[4][0] for r in obj["records"]}))))
+                    res.nontriv(("agree", min(nqs, 64) // 8, min(nr, 64) // 8, tuple(sorted({r[4][0] for r in obj["records"]})), min(obs["depth"], 130) // 8))
+                    if obs["depth"] > res.streams.get("max-agreeing-nesting", 0):
+                        res.streams["max-agreeing-nesting"] = obs["depth"]
                     if nr > res.streams.get("max-agreeing-records", 0):
                         res.streams["max-agreeing-records"] = nr
                     if nqs > res.streams.get("max-agreeing-questions", 0):
@@ -1206,6 +1285,10 @@ def third_parser(res, data, case, obs, strict, have_lean):
         res.count("rfc1035.py-accepted-in-scope")
         ok = (obs["status"] == "ok" and obj["valid"] and obj["hdr"] == p253["hdr"] and obj["questions"] == p253["questions"]
               and obj["records"] == p253["records"])
+        if ok and obs["depth"] > 1:  # a name that went through at least one pointer
+            nl = max((len(n) for n in p253["names"]), default=0)
+            if nl > res.streams.get("max-agreeing-labels", 0):
+                res.streams["max-agreeing-labels"] = nl
         if not ok and not (strict is not None and strict["supported"] and strict["reencodable"]):  # else already reported above
             res.violate("C02:strict-disagrees", "an independent strict RFC 1035 parser (253-character names) accepts this datagram but the library's result "
                         "differs (valid=%s)" % (obj["valid"] if obj else None), case)
@@ -1447,6 +1530,9 @@ def gen_cases(tier, rng, budget, res):
         p, w = late_pointer_packet(rng, rng.choice([rng.randrange(0x1000, 0x2000), rng.randrange(0x2000, 8800), rng.randrange(8180, 8210)]),
                                    rng.choice([None, 8966, 8193]) , rng.choice([None, 0, 0xC0, 0x01]))
         yield ("late-pointer", p)
+    # deep legal chains: strict-accepted names through up to 128 backward hops / up to 126 labels
+    for case in deep_legal_cases(rng, tier):
+        yield case
     # NSEC bitmaps as heavy as a datagram can make them
     for case in nsec_max_cases(rng, tier):
         yield case
@@ -1588,8 +1674,10 @@ def run(ctx):
     interleave_stream(res, rng, tier, driver_ok)
     utf8_stream(res, rng, tier, driver_ok)
     guard_stream(res, driver_ok)
-    res.notes.append("largest message on which the library agreed with the strict parser: %d records, %d questions"
-                     % (res.streams.get("max-agreeing-records", 0), res.streams.get("max-agreeing-questions", 0)))
+    res.notes.append("largest message on which the library agreed with the strict parser: %d records, %d questions; deepest agreeing pointer chain: nesting %d "
+                     "(= %d hops; the strict parser allows 128); longest agreeing name in a message with compressed names: %d labels"
+                     % (res.streams.get("max-agreeing-records", 0), res.streams.get("max-agreeing-questions", 0), res.streams.get("max-agreeing-nesting", 0),
+                        max(0, res.streams.get("max-agreeing-nesting", 0) - 1), res.streams.get("max-agreeing-labels", 0)))
     res.notes.append("work besides the name decoder (measured on the implementation with a line tracer, compared with the model's counters on every datagram): "
                      "at most %d source lines of the package per datagram (a %d-byte one); largest loop counters: %s; %d decodes of >= %d lines also held to the "
                      "CPU-time yardstick (%d yardstick lines per executed line + %.2f s)"
